@@ -11,6 +11,7 @@ NOPANIC_TAG = {
     "BLD": "C04.nopanic",
     "WCH": "C16.total",
     "FS": "C15.total",
+    "DOM": "C19.total",
     "INC": "C05.corrupt",
     "CFG": "C14.nopanic",
     "CLN": "C12.nopanic",
@@ -28,7 +29,7 @@ ASSUME = {
     "A-cmd": "A-cmd: running build_command(script, dir) yields the world's cmd(dir, script)",
     "A-all": "A-all: iterator adapters and future combinators at the call sites — map/filter/collect, future::join / try_join_all, Result::map, and_then — behave as their names say (one result per element in order; fold of insert); the per-element closures are outlined and verified (R13); async_utils::both and ::all themselves are verified in the UTIL unit against futures-as-values (select yields either side first; buffer_unordered yields in any order)",
     "A-clap": "A-clap: clap's ArgMatches::is_present is an uninterpreted predicate of the flag name",
-    "A-str": "A-str: str/Path/OsStr predicates (ends_with, starts_with, file_name, to_string_lossy, is_in_work_dir, matches_extensions) are uninterpreted functions; to_string_lossy is total",
+    "A-str": "A-str: strings are their character sequences (vstd view); str ends_with / starts_with / == / split / to_owned, format!(\".{}\"), OsStr::to_str / to_string_lossy (total), Path::file_name / components carry the contracts written in spec/FS.vs and spec/DOM.vs; in the WCH unit the same predicates are uninterpreted functions (FS proves which functions is_in_work_dir and matches_extensions are)",
     "A-walkdir": "A-walkdir: walkdir yields every entry at or below the root (root included), parents before children, links not followed; filter_entry(p) skips an entry for which p is false together with everything below it; an entry's path is the root path followed by the names down to it; the root entry is named by the last normal component of the root path; items reported as errors carry no entry",
     "A-adapters": "A-adapters (FS unit): Option::map/filter/is_some_and/is_none_or/unwrap_or and spawn_blocking(f).await are replaced at their site by their definition over the outlined closures; Iterator::any, filter().map().collect(), filter_entry().filter_map().collect() and join_all(..).flatten().collect() by stubs restating the chain's documented meaning in terms of the outlined closure's contract; every site text is pinned by its skeleton",
     "A-kani": "A-kani (bounded stand-in): async_std::path::Path is std::path::Path; anyhow!'s text is dropped; results hold within the stated bounds only",
@@ -72,11 +73,11 @@ PROPS = {
     "C15": {"units": ["FS", "INC", "CLN", "WCH"], "level": "proof", "assume": ["A-std", "A-hash", "A-fs", "A-walkdir", "A-str", "A-adapters", "R1"],
             "not_covered": ["not covered: byte-level UTF-8 decoding of names (to_string_lossy / to_str are assumed total functions), symlink loops, the order of the listing, notify itself (C16)"]},
     "C16": {"units": ["WCH"], "level": "proof", "assume": ["A-std", "A-chan", "A-notify", "A-str", "A-all"],
-            "not_covered": ["not covered: notify itself, recursion into directories created later; the byte-level behaviour of the str predicates (bounded Kani harnesses in the KANI unit)"]},
+            "not_covered": ["not covered: notify itself, recursion into directories created later; the byte-level UTF-8 decoding behind to_string_lossy (assumed total)"]},
     "C18": {"units": ["INC"], "level": "proof", "assume": INCA,
             "not_covered": ["not covered: injectivity of the state-file name formatting (string reasoning); canonicalisation of project directories (A-yaml side)"]},
-    "C19": {"units": ["CFG"], "level": "proof", "assume": CFGA + ["A-kani"], "kani_tags": ["C19.parse"],
-            "not_covered": ["not covered: list_all_available_target_names (iterator chains over string maps); the body of TargetId::try_parse is covered only by the bounded Kani harness try_parse_spec (when it could be run: see the evidence)"]},
+    "C19": {"units": ["CFG", "DOM"], "level": "proof", "assume": CFGA + ["A-str"],
+            "not_covered": ["not covered: list_all_available_target_names (iterator chains over string maps); str::split itself (assumed with its three defining facts: at least one piece, joining gives the text back, no piece contains the separator)"]},
     "C20": {"units": ["ACT", "RELAY"], "level": "proof", "assume": ACTORS,
             "not_covered": ["not covered: the metamorphic comparison of two real invocations"]},
 }
@@ -88,6 +89,7 @@ PROPS = {
 VALIDATED_BY = {
     "list_files_in_path": "FS", "list_files_in_paths": "FS", "list_files_in_resources": "FS",
     "is_in_work_dir": "FS", "matches_extensions": "FS", "transform_extensions": "FS",
+    "TargetId::try_parse": "DOM", "TargetId::try_parse_many": "DOM",
 }
 
 PLANNED = ["C%02d" % i for i in range(1, 21)]
